@@ -283,8 +283,13 @@ def run_tools(item, tl):
     n = item["n"]
     obs = []
 
+    replays = {}
+
     def rec(clause, st, what="", sample=None):
-        obs.append(ob(clause, config, st, what=what, witness={"clause": clause} if st == "violated" else None, replay={"reproduced": True} if st == "violated" else None, sample=sample,
+        rp = replays.get("calculate_snr") if clause.startswith("calculate_snr") else None
+        if rp is not None and st == "violated":
+            what = what + ": " + rp[1]
+        obs.append(ob(clause, config, st, what=what, witness={"clause": clause} if st == "violated" else None, replay={"reproduced": (rp[0] if rp is not None else True)} if st == "violated" else None, sample=sample,
                       stretch=True if st != "holds" and clause.endswith("(UF)") else False, **tl.take()))
     SP, D = z3.Real("SP"), z3.Real("D")
 
@@ -302,9 +307,20 @@ def run_tools(item, tl):
         out["metric_lin"] = SignalToNoiseRatio(mode="linear")(x, x + nz)
         noisy, noise = U.add_noise_for_snr(x, 10.0)
         out["noisy"], out["noise"] = noisy, noise
+        # calculate_snr: whole tensor and per row (dim=1, with and without keepdim), brought back to a ratio with 10**(v/10)
+        X2, N2 = fresh_reals("X", (2, 2)), fresh_reals("N", (2, 2))
+        out["X2"], out["N2"] = X2, N2
+        eps32 = float(torch.finfo(torch.float32).eps)
+        out["calc_all"] = U.calculate_snr(x, x + nz)
+        out["calc_rows"] = U.calculate_snr(X2, X2 + N2, dim=1)
+        out["calc_rows_keep"] = U.calculate_snr(X2, X2 + N2, dim=1, keepdim=True)
+        # reference written from the definition with plain tensor operations (same uninterpreted log10)
+        out["ref_all"] = 10 * torch.log10((x ** 2).mean() / torch.clamp((nz ** 2).mean(), min=eps32))
+        out["ref_rows"] = 10 * torch.log10((X2 ** 2).mean(dim=1) / torch.clamp((N2 ** 2).mean(dim=1), min=eps32))
         return out
-    names = [f"x{i}" for i in range(n)] + [f"n{i}" for i in range(n)]
-    assume = bounds(names) + [SP > z3.RealVal("1/1000"), SP < 1000, D >= -20, D <= 40, zor([z3.Real(f"n{i}") > z3.RealVal("1/10") for i in range(n)]), zor([z3.Real(f"x{i}") > z3.RealVal("1/10") for i in range(n)])]
+    names = [f"x{i}" for i in range(n)] + [f"n{i}" for i in range(n)] + [f"X{i}" for i in range(4)] + [f"N{i}" for i in range(4)]
+    assume = [z3.Or(z3.Real(f"N{2 * r}") > z3.RealVal("1/10"), z3.Real(f"N{2 * r + 1}") > z3.RealVal("1/10")) for r in range(2)] + \
+             [z3.Or(z3.Real(f"X{2 * r}") > z3.RealVal("1/10"), z3.Real(f"X{2 * r + 1}") > z3.RealVal("1/10")) for r in range(2)] + bounds(names) + [SP > z3.RealVal("1/1000"), SP < 1000, D >= -20, D <= 40, zor([z3.Real(f"n{i}") > z3.RealVal("1/10") for i in range(n)]), zor([z3.Real(f"x{i}") > z3.RealVal("1/10") for i in range(n)])]
     paths = sym_paths(run, assume, tl, max_paths=16)
     agg = {}
 
@@ -323,6 +339,30 @@ def run_tools(item, tl):
         eps = float(torch.finfo(torch.float32).eps)
         st, _ = decide(ctx, S.zbool(S.ne(S.mul(elems(R["metric_lin"])[0], S.add(Nn, eps)), Sx)))
         note("SignalToNoiseRatio(linear)(x, x+n) * (mean n^2 + eps) == mean x^2", st)
+        # calculate_snr: 10^(value/10) * noise power == signal power, for the whole tensor and per row
+        bad = [S.zbool(S.ne(elems(R["calc_all"])[0], elems(R["ref_all"])[0]))]
+        refs = elems(R["ref_rows"])
+        for key in ("calc_rows", "calc_rows_keep"):
+            vals = elems(R[key])
+            if len(vals) != 2 or (key == "calc_rows_keep" and tuple(R[key].shape) != (2, 1)):
+                bad.append(z3.BoolVal(True))
+                continue
+            for r in range(2):
+                bad.append(S.zbool(S.ne(vals[r], refs[r])))
+        st, mdl = decide_any(ctx, bad)
+        if st == "violated":
+            # replay on real tensors: per-row SNR against the definition
+            vals = {nm: float(S.zval(mdl, z3.Real(nm))) for nm in names}
+            with _disable_current_modes():
+                Xr = torch.tensor([[vals["X0"], vals["X1"]], [vals["X2"], vals["X3"]]], dtype=torch.float64)
+                Nr = torch.tensor([[vals["N0"], vals["N1"]], [vals["N2"], vals["N3"]]], dtype=torch.float64)
+                xr = torch.tensor([vals[f"x{i}"] for i in range(n)], dtype=torch.float64)
+                nr = torch.tensor([vals[f"n{i}"] for i in range(n)], dtype=torch.float64)
+                got = [U.calculate_snr(xr, xr + nr).reshape(-1), U.calculate_snr(Xr, Xr + Nr, dim=1).reshape(-1), U.calculate_snr(Xr, Xr + Nr, dim=1, keepdim=True).reshape(-1)]
+                ref = [10 * torch.log10((xr ** 2).mean() / (nr ** 2).mean()).reshape(-1), 10 * torch.log10((Xr ** 2).mean(dim=1) / (Nr ** 2).mean(dim=1))]
+                rep = bool((got[0] - ref[0]).abs().max() > 1e-6) or got[1].numel() != 2 or got[2].numel() != 2 or bool((got[1] - ref[1]).abs().max() > 1e-6) or bool((got[2] - ref[1]).abs().max() > 1e-6)
+            replays["calculate_snr"] = (rep, f"X={Xr.tolist()}, N={Nr.tolist()}: calculate_snr(dim=1) = {got[1].tolist()}, definition gives {ref[1].tolist()}")
+        note("calculate_snr (whole tensor, dim=1, keepdim) == 10 log10(signal power / noise power) of the same slice", st)
         # add_noise_for_snr: noise^2 * 10 == z^2 * mean x^2 per sample (10 dB), noisy == x + noise
         draws = [S.topoly(g) for k, g in ctx.rng_log][-n:]
         bad = []
